@@ -15,7 +15,7 @@ META = dict(
     text="request sets of 1..n characteristics over 1-2 accessory ids with permissions {pr+pw, pw only, pw+tw} x every status vector over {0, each defined HAP code, its positive twin, "
     "an unknown code} x reply shape {204, 207 full list, 207 failed-only, 200 list, global status with partial list} x malformed entries {missing, duplicated, non-dict, id-less}; "
     "oracle: reads report value or status for every mentioned id and the global error for unmentioned ones; writes never present a rejected characteristic as written, never report an "
-    "accepted one non-zero, listeners are notified for exactly accepted and readable characteristics, malformed entries never raise IP cells repeat under pre-histories (subscribed to the written characteristics, subscribed and reconnected, partly unsubscribed), legal HTTP spellings of the reply and other read-cutting environments; CoAP reads follow writes the accessory rejected and include success with an empty body. Also: caller-kept containers are left alone; overlapping readers on one pairing; CoAP error PDUs with a body; a CoAP write racing an event for the same characteristic (listeners are told the written value). Also histories written -> accessory database changed (permissions flipped) -> listed again -> written: the current database says what is readable.",
+    "accepted one non-zero, listeners are notified for exactly accepted and readable characteristics, malformed entries never raise IP cells repeat under pre-histories (subscribed to the written characteristics, subscribed and reconnected, partly unsubscribed), legal HTTP spellings of the reply and other read-cutting environments; CoAP reads follow writes the accessory rejected and include success with an empty body. Also: caller-kept containers are left alone; overlapping readers on one pairing; CoAP error PDUs with a body; a CoAP write racing an event for the same characteristic (listeners are told the written value). Also histories written -> accessory database changed (permissions flipped) -> listed again -> written: the current database says what is readable. Also a fault (close, garbage, silence) at the k-th request a write call makes; BLE: rejected writes with subscriptions to restore around them and a hang-up during the restore.",
     note="ids a 207 does not mention are treated as accepted-or-don't-care for notifications (weakest reading); status-less entries in a write reply are not judged",
     design_ref="DESIGN.md §4 C13",
     rule="a case = (transport, operation, request set, reply description); distinct = distinct tuple; non-trivial = reply carries at least one non-zero status or malformed entry",
